@@ -60,41 +60,41 @@ type Cmd struct {
 }
 
 type World struct {
-	r   *R
-	Sys vivid.PrimaryActorSystem
-	Ctx context.Context
+	r      *R
+	Sys    vivid.PrimaryActorSystem
+	Ctx    context.Context
 	Cancel context.CancelFunc
 
-	mu     sync.Mutex // real lock (see core.go)
-	events []Event
-	nextID int
-	inc    map[string]int // path -> incarnation
-	inst   map[string]int // path -> provider instances created
-	sent   map[int]*SentInfo
-	t0     time.Time
-	Obs    vivid.ActorRef
-	makers map[string]*Maker
+	mu       sync.Mutex // real lock (see core.go)
+	events   []Event
+	nextID   int
+	inc      map[string]int // path -> incarnation
+	inst     map[string]int // path -> provider instances created
+	sent     map[int]*SentInfo
+	t0       time.Time
+	Obs      vivid.ActorRef
+	makers   map[string]*Maker
 	provider map[string]bool
-	Addr   string
+	Addr     string
 }
 
 // SentInfo describes a user message the scenario sent.
 type SentInfo struct {
-	ID     int
-	To     string
-	How    string // provenance of the reference
-	State  string // what the scenario believes the target state to be
-	Step   int
-	Phase  string
+	ID    int
+	To    string
+	How   string // provenance of the reference
+	State string // what the scenario believes the target state to be
+	Step  int
+	Phase string
 }
 
 type WorldOpt struct {
-	Addr     string // advertise address when remoting is on (default "localhost")
-	Strategy vivid.SupervisionStrategy
+	Addr         string // advertise address when remoting is on (default "localhost")
+	Strategy     vivid.SupervisionStrategy
 	MakeStrategy func(w *World) vivid.SupervisionStrategy // called before the system exists (system-level maker)
-	SysOpts  []vivid.ActorSystemOption
-	NoObs    bool
-	NoStart  bool
+	SysOpts      []vivid.ActorSystemOption
+	NoObs        bool
+	NoStart      bool
 }
 
 func newWorld(r *R, o WorldOpt) *World {
@@ -556,11 +556,11 @@ func (g *Gate) Open() { close(g.ch) }
 
 // Maker is a recording supervision decision maker whose answers come from the script.
 type Maker struct {
-	w        *World
-	Name     string
-	mu       sync.Mutex
-	Decide   func(n int, ctx vivid.SupervisionContext) vivid.SupervisionDecision
-	Calls    []MakerCall
+	w      *World
+	Name   string
+	mu     sync.Mutex
+	Decide func(n int, ctx vivid.SupervisionContext) vivid.SupervisionDecision
+	Calls  []MakerCall
 }
 
 type MakerCall struct {
